@@ -17,7 +17,7 @@ func init() {
 		Patterns: []string{"./..."},
 		Explanation: "Decides, over every repository package in the import closure of d2compiler (the compile path): (1) no iteration-order leak — every `range` over a map is classified from its body as order-insensitive, sorted-before-use, or leaking, and a leaking one fails unless a reviewed reason is on file; " +
 			"(2) no run-time write to package-level state other than self-synchronising objects or state guarded by its mutex at every access (SSA store/map-update/mutating-method inventory); (3) no read of clock, random source, environment or PID; " +
-			"(4) every success return of d2compiler.Compile is preceded by SortObjectsByAST and SortEdgesByAST on the returned graph.",
+			"(4) every success return of d2compiler.Compile is preceded by SortObjectsByAST and SortEdgesByAST on the returned graph. Also: memo-key completeness — a function that returns early with a remembered value and stores one later is keyed by every parameter its computation reads.",
 		NotCovered: "ties in unstable sorts with index-dependent comparators (deterministic in Go's implementation, not by contract); data races on non-package state when one graph is compiled concurrently with itself",
 		Technique:  "static analysis: effect classification of map-range bodies, SSA global-write inventory, call inventory, must-pass-through on go/cfg",
 		Run:        runC08,
@@ -27,7 +27,7 @@ func init() {
 		Title:    "Rendering is deterministic regardless of scheduling",
 		Patterns: []string{"./..."},
 		Explanation: "Decides, over every repository package in the import closure of d2lib and the SVG renderers (layout, export, render, fonts, text measurement): (1) the only run-time-written package state is self-synchronising (sync.Map, mutexes, loggers) or is accessed under its mutex at *every* read and write, in every package (must-lockset dataflow); no JS runtime, ruler or option struct is kept in a package-level variable; " +
-			"(2) no iteration-order leak in any `range` over a map (classified as in C08; reviewed reasons for the rest); (3) no clock/random/environment read that can reach output bytes.",
+			"(2) no iteration-order leak in any `range` over a map (classified as in C08; reviewed reasons for the rest); (3) no clock/random/environment read that can reach output bytes. Also: memo-key completeness — a function that returns early with a remembered value and stores one later is keyed by every parameter its computation reads and by every field of its receiver that the computation reads and that code outside constructors and outside the computation assigns.",
 		NotCovered: "byte equality itself; determinism inside goja/dagre.js/elk.js/rough.js; unstable-sort ties; one suspected order dependence in dagre's shiftReachableDown is excluded from the claim (map mutated while ranged over; not demonstrated, see DESIGN.md)",
 		Technique:  "static analysis: SSA global-write inventory, must-lockset dataflow across packages, effect classification of map-range bodies",
 		Run:        runC25,
